@@ -721,6 +721,48 @@ func vfc07OpenDB(t testing.TB, rng *rand.Rand, fx *vfc07Fixture, headSeries int,
 	return db
 }
 
+// vfc07OpenHeadDB opens a fresh tsdb.DB with head series only (a second receive replica that holds
+// other series than its twin): n series from the universe, each with the extra label, in [start, start+slots*step).
+func vfc07OpenHeadDB(dir string, rng *rand.Rand, u *vfc07Universe, n int, start int64, slots int, extra labels.Label) *tsdb.DB {
+	o := tsdb.DefaultOptions()
+	o.RetentionDuration = math.MaxInt64
+	o.WALSegmentSize = -1
+	o.StripeSize = 32
+	db, err := tsdb.Open(dir, nil, nil, o, nil)
+	if err != nil {
+		vfc07Setup("open twin tsdb: %v", err)
+	}
+	db.DisableCompactions()
+	app := db.Appender(context.Background())
+	type at struct {
+		ts  int64
+		idx int
+	}
+	lsets := vfc07GenLsets(rng, u, n)
+	var order []at
+	for i := range lsets {
+		for _, ts := range vfc07GenTimes(rng, start, slots) {
+			order = append(order, at{ts, i})
+		}
+	}
+	sort.Slice(order, func(i, j int) bool {
+		if order[i].ts != order[j].ts {
+			return order[i].ts < order[j].ts
+		}
+		return order[i].idx < order[j].idx
+	})
+	for _, o := range order {
+		l := labels.NewBuilder(lsets[o.idx]).Set(extra.Name, extra.Value).Labels()
+		if _, err := app.Append(0, l, o.ts, vfc07Value(o.idx+500, o.ts)); err != nil {
+			vfc07Setup("twin head append: %v", err)
+		}
+	}
+	if err := app.Commit(); err != nil {
+		vfc07Setup("twin head commit: %v", err)
+	}
+	return db
+}
+
 // ---------------------------------------------------------------------------------------------
 // matchers
 
@@ -1016,6 +1058,83 @@ func vfc07GenReplicaLabels(rng *rand.Rand, u *vfc07Universe) []string {
 		out = append(out, c)
 	}
 	return out
+}
+
+// vfc07SessionRanges draws the ranges of one selector session: the same selectors are issued with
+// every range in order, so index caches filled under one range are read under another.
+func vfc07SessionRanges(rng *rand.Rand, fx *vfc07Fixture) (string, [][2]int64) {
+	slotTime := func() int64 {
+		t := fx.tmin + rng.Int63n(fx.tmax-fx.tmin+1)
+		return t - t%vfc07Step
+	}
+	narrow := func() [2]int64 {
+		x := slotTime()
+		if rng.Intn(3) == 0 {
+			x = fx.edges[rng.Intn(len(fx.edges))]
+		}
+		return [2]int64{x, x + []int64{0, vfc07Step, 3 * vfc07Step, 8 * vfc07Step}[rng.Intn(4)]}
+	}
+	wide := func() [2]int64 {
+		switch rng.Intn(3) {
+		case 0:
+			return [2]int64{math.MinInt64, math.MaxInt64}
+		case 1:
+			return [2]int64{fx.tmin - int64(rng.Intn(3))*vfc07Step, fx.tmax + int64(rng.Intn(3))*vfc07Step}
+		default:
+			return [2]int64{fx.tmin, fx.tmax}
+		}
+	}
+	free := func() [2]int64 { a, b := fx.vfc07Range(rng); return [2]int64{a, b} }
+	switch rng.Intn(6) {
+	case 0:
+		return "single", [][2]int64{free()}
+	case 1:
+		out := [][2]int64{narrow()}
+		if rng.Intn(2) == 0 {
+			out = append(out, narrow())
+		}
+		return "narrow-then-wide", append(out, wide())
+	case 2:
+		out := [][2]int64{wide(), narrow()}
+		if rng.Intn(2) == 0 {
+			out = append(out, narrow())
+		}
+		return "wide-then-narrow", out
+	case 3:
+		var out [][2]int64
+		for i := 0; i < 2+rng.Intn(3); i++ {
+			out = append(out, narrow())
+		}
+		return "disjoint-windows", out
+	case 4: // nested ranges growing from one point to everything
+		x := slotTime()
+		out := [][2]int64{{x, x}}
+		for _, d := range []int64{2, 10} {
+			if rng.Intn(3) != 0 {
+				out = append(out, [2]int64{x - d*vfc07Step, x + d*vfc07Step})
+			}
+		}
+		return "growing", append(out, wide())
+	default:
+		var out [][2]int64
+		for i := 0; i < 2+rng.Intn(3); i++ {
+			out = append(out, free())
+		}
+		return "free-ranges", out
+	}
+}
+
+// vfc10Tune sets the request-time knobs of the store (they are read at the start of every call).
+func vfc10Tune(rng *rand.Rand, st *BucketStore) string {
+	st.enabledLazyExpandedPostings = rng.Intn(3) != 0
+	st.seriesMatchRatio = []float64{0.5, 0.99, 0.999}[rng.Intn(3)]
+	st.postingGroupMaxKeySeriesRatio = []float64{0, 0, 0.02, 2}[rng.Intn(4)]
+	st.seriesBatchSize = []int{1, 3, 10000}[rng.Intn(3)]
+	lazy := "off"
+	if st.enabledLazyExpandedPostings {
+		lazy = "on"
+	}
+	return fmt.Sprintf("lazy=%s ratio=%v keys=%v batch=%d", lazy, st.seriesMatchRatio, st.postingGroupMaxKeySeriesRatio, st.seriesBatchSize)
 }
 
 // vfc07DupSetClass names the one selector class that is singled out in fingerprints: a regex set
